@@ -1,6 +1,6 @@
 """C03 -- signatures depend only on program content, never on the environment."""
 import re
-from contracts import sigs, hashing, syntactic, retrieve_rec
+from contracts import sigs, hashing, syntactic, retrieve_rec, introspect_fun
 
 ID = "C03"
 LEVEL = "other"
@@ -8,7 +8,7 @@ EXPLANATION = (
     "Proved: every function between a Python value and a signature string equals a pinned spec function for ALL inputs -- dds_hash._dds_hash0 (spec_hash), _algo_str/_algo_bytes, "
     "dds_hash_commut (the exact string: the 64-character digest for one pair, hex_format(xor_fold) otherwise; int(.,16) always applied to hex), _fis_to_siglist (indexed 'fun_dep_<i>' keys), "
     "_build_return_sig (spec_hash_commut of body ++ arg ++ dep_<p> ++ fun_dep_<i> ++ ext_dep_<lp> ++ ext_variable_<lp>, each comprehension's key format checked on the real body). "
-    "A change of packing format, separator, key string or marker fails an ensures clause. The exact result of every case of the name resolution (_retrieve_object_rec: None vs external object vs authorized object and its path) is pinned. Frame clauses on the real AST: the process-wide interaction cache is never written; identity / environment "
+    "A change of packing format, separator, key string or marker fails an ensures clause. _introspect_fun (the caching front of the analysis) is proved, for ARBITRARY content of the process-wide record, to return the per-evaluation entry of exactly this function path and argument context on a hit, to analyse the function itself once on a miss and cache / register the result under its own key, to name a lambda by the hash of its source, and to raise no error that comes from re-resolving the record (history independence). The exact result of every case of the name resolution (_retrieve_object_rec: None vs external object vs authorized object and its path) is pinned. Frame clauses on the real AST: the process-wide interaction cache is never written; identity / environment "
     "values (id, hash, cwd, time, __file__, environ) do not occur in signature code outside log lines and listed harmless uses; set iteration reaches signatures only through sorted(). "
     "Bounded: the corpus is evaluated under hash seeds, cwd, relocation, store kinds, extra_debug and after earlier evaluations, and compared with pinned signatures."
 )
@@ -20,13 +20,15 @@ class _Replay(dict):
     def get(self, key, default=None):
         if key.startswith("ObjectRetrieval._retrieve_object_rec#"):
             return "h_retrieve.resolution_cases"
+        if key.startswith("_introspect_fun#signals:"):
+            return "h_history.same_process_histories"
         if key.startswith("ObjectRetrieval.retrieve_object#"):
             return "h_retrieve.retrieve_cases"
         return dict.get(self, key, default)
 
 
 REPLAY = _Replay()
-_OWN = re.compile(r"^(dds_hash_commut#|_fis_to_siglist#|_build_return_sig#|_algo_|dds_hash\._dds_hash0#(ensures:result_is_spec_hash|comp\d|signals)|signatures#frame|ObjectRetrieval\._retrieve_object_rec#ensures:pinned_)")
+_OWN = re.compile(r"^(dds_hash_commut#|_fis_to_siglist#|_build_return_sig#|_algo_|dds_hash\._dds_hash0#(ensures:result_is_spec_hash|comp\d|signals)|signatures#frame|ObjectRetrieval\._retrieve_object_rec#ensures:pinned_|^_introspect_fun#)")
 
 
 def owns(name, kind):
@@ -36,7 +38,7 @@ def owns(name, kind):
 def specs():
     # name resolution decides what a signature mentions (an untracked name reported as an ExternalObject is named in its
     # reader's signature, one reported as None is not): the exact result of every case is pinned here
-    return [c() for c in sigs.SPECS] + [c() for c in hashing.SPECS] + [c() for c in retrieve_rec.SPECS]
+    return [c() for c in sigs.SPECS] + [c() for c in hashing.SPECS] + [c() for c in retrieve_rec.SPECS] + [c() for c in introspect_fun.SPECS]
 
 
 def lemmas():
